@@ -39,9 +39,43 @@ def gen_op_many(rng, elems):
     return f"ms {variant} {cmp} {split} {threads} {rng.choice([1, 2, 10])} {rng.choice(elems)} " + ",".join(str(k) for k in keys)
 
 
-def gen_op(rng, tier, elems=("pod", "log", "log", "own", "own")):
-    if rng.random() < 0.06:
+CONTAINERS = ("deque", "deque", "deque64", "deque64", "strided", "rev", "str")
+
+
+def gen_op_container(rng, tier):
+    """the range is not a contiguous array of the value type: std::deque (sizes crossing the 512-byte blocks:
+    32 elements of 16 bytes / 8 elements of 64 bytes), a user-defined strided random-access iterator, a
+    reverse iterator; and an element with a std::string key.  Every thread count, both splittings."""
+    cont = rng.choice(CONTAINERS)
+    r = rng.random()
+    if cont == "deque":
+        n = rng.randrange(20, 200) if r < 0.9 else rng.randrange(200, 600)
+    elif cont == "deque64":
+        n = rng.randrange(3, 80) if r < 0.9 else rng.randrange(80, 300)
+    else:
+        n = rng.randrange(0, 60) if r < 0.9 else rng.randrange(60, 300)
+    threads = rng.choice([1, 2, 2, 3, 3, 4, 5, 6, 7, 8, 8, 11, 16, 17, 24, 32])
+    if rng.random() < 0.15 and n > 0:
+        threads = max(1, min(32, n + rng.choice([-1, 0, 1, 3])))
+    variant = rng.choice(["s", "s", "u"])
+    cmp = rng.choice(["lt", "lt", "lt", "gt", "half"])
+    if cont == "str" and cmp == "half":
+        cmp = "lt"
+    split = rng.choice(["exact", "exact", "sampling"])
+    osf = rng.choice([1, 1, 2, 3, 10, 10])
+    keys = gen_keys(rng, n)
+    if cmp == "half":
+        keys = [2 * k + rng.randrange(2) for k in keys]
+    ks = ",".join(str(k) for k in keys) if keys else "-"
+    return f"ms {variant} {cmp} {split} {threads} {osf} {cont} {ks}"
+
+
+def gen_op(rng, tier, elems=("pod", "log", "log", "own", "own"), containers=True):
+    r0 = rng.random()
+    if r0 < 0.06:
         return gen_op_many(rng, elems)
+    if containers and r0 < 0.26:
+        return gen_op_container(rng, tier)
     r = rng.random()
     if r < 0.08:
         n = rng.choice([0, 1, 2])
@@ -126,7 +160,7 @@ class C06(flow.Spec):
         lines = []
         for i in range(400):
             lines.append(f"case t{i}")
-            lines.append(gen_op(rng, "quick", elems=("pod", "pod", "log")))
+            lines.append(gen_op(rng, "quick", elems=("pod", "pod", "log"), containers=(i % 4 == 0)))
         out, rc, err = core.run_lines([hb, "run"], lines, timeout=1500,
                                       env={"TSAN_OPTIONS": "halt_on_error=1:exitcode=66:report_signal_unsafe=0"})
         races = err.count("WARNING: ThreadSanitizer")
